@@ -13,8 +13,9 @@ still at the level of bytes on a socket:
   state as it is at that moment** (stale after a lost connection) until a message of type ACKNOWLEDGE is returned;
   anything else returned is dropped; `None` (nothing readable) ends in `AcknowledgementTimeout`; `ConnectionLost`
   and the decode errors propagate out of `connect()`.  Only after the ACK the three subscription fields are reset.
-  Hence: joined ⇒ connected, empty sets; lost ⇒ not connected, sets as they were; timeout / decode error ⇒ still
-  "connected" on the new socket, sets as they were.
+  A wait that raises (`ConnectionLost`, `AcknowledgementTimeout`, a decode error) closes the socket and sets
+  `_connected = False` (fix 5d9f32d, finding C02-F4).  Hence: joined ⇒ connected, empty sets; anything else ⇒ not
+  connected, socket closed, sets as they were.
 * `Client.disconnect()`: not connected, empty sets.
 * a send that hits a dead connection (`_sendall`): `ConnectionLost`, not connected, sets untouched.
 * the subscription API between reads (`setSub`) needs a connection (`requires_connection`): ignored otherwise.
@@ -68,8 +69,9 @@ def connectOut (sub0 : Sub) (len : Nat) (r : Res × Sock) : CObs × St :=
   let used := len - r.2.data.length
   match r.1 with
   | .msg _ _ => (⟨.joined, used, true⟩, ⟨r.2, true, ⟨false, []⟩⟩)           -- the reset follows the ACK
-  | .lost => (⟨.lost, used, false⟩, ⟨r.2, false, sub0⟩)
-  | x => (⟨CRes.ofRes x, used, true⟩, ⟨r.2, true, sub0⟩)
+  -- no acknowledgement (`ConnectionLost`, `AcknowledgementTimeout`, a decode error escaping from the wait): this is
+  -- not a session — `_connected = False`, the socket is closed, the sets stay as they were (fix 5d9f32d)
+  | x => (⟨CRes.ofRes x, used, false⟩, ⟨Sock.dead, false, sub0⟩)
 
 /-- the subscription state `_connect_helper` waits with: `if self.connected: self.disconnect()` came first -/
 def subAtHandshake (st : St) : Sub := if st.connected then ⟨false, []⟩ else st.sub
